@@ -114,6 +114,21 @@ Theorem C03_ctor_sinc_in_R : forall ratio maxrel env ilen inbr chunk nch s,
   si_wf env s /\ ratio = sratio s /\ sL s = ilen.
 Proof. exact si_ctor_wf_R. Qed.
 
+(** The fixed-output types through non-ramped ratio changes: EVERY change the setter accepts is safe (the setter
+    recomputes needed_input_size from the carried position; the constructor sizes the buffer for the smallest accepted
+    ratio).  [ocall_ok (a, b, nxt, c)] is  a = nxt /\ b = c /\ 0 <= a  with nxt = input_frames_next() and c = chunk_size
+    just before the call. *)
+Theorem C03_fast_out_steps_safe_R : forall d blen ops (s : @astate CR SR (@FastFixedOut CR)), fo_wfe blen s ->
+  match fo_run_ops d s ops with
+  | Ok (s', log) => fo_wfe blen s' /\ oC s' = oC s /\ Forall ocall_ok log
+  | Err _ => True
+  | Panic _ | UB _ | Diverge => False
+  end.
+Proof. exact fo_history_steps_R. Qed.
+Theorem C03_ctor_fast_out_steps_R : forall ratio maxrel d chunk nch s, (1 <= chunk)%Z -> (0 <= nch)%Z ->
+  @fast_out_new CR SR ratio maxrel d chunk nch = inr (RFastOut d s) -> exists blen, fo_wfe blen s /\ ratio = oratio s.
+Proof. exact fo_ctor_wfe_R. Qed.
+
 (** SincFixedIn through non-ramped ratio changes and set_chunk_size: [sstep_compatible L rc r2] is the complement of the
     two recorded defect classes for sinc_len L (preroll-underflow: ceil(1/rc) - 1/r2 > L - 2; count-overrun:
     (ceil(1/rc) - ceil(1/r2)) * r2 > 8).  [scall_ok (a, b, c, adv)] is  a = c /\ 0 <= b <= adv  with c the chunk size
@@ -153,6 +168,21 @@ Theorem C03_ctor_sinc_out_R : forall ratio maxrel env ilen inbr chunk nch s,
   @sinc_out_new CR SR ratio maxrel env ilen inbr chunk nch = inr (RSincOut env s) ->
   exists blen, so_wf env blen s /\ ratio = uratio s /\ uL s = ilen.
 Proof. exact so_ctor_wf_R. Qed.
+
+(** SincFixedOut through non-ramped ratio changes (any the setter accepts) and set_chunk_size *)
+Theorem C03_sinc_out_steps_safe_R : forall env blen ops (s : @astate CR SR (@SincFixedOut CR)), so_wfe env blen s ->
+  (forall n, In (U2Chunk n) ops -> (0 <= n)%Z) ->
+  match so_run_ops env s ops with
+  | Ok (s', log) => so_wfe env blen s' /\ uCmax s' = uCmax s /\ Forall ucall_ok log
+  | Err _ => True
+  | Panic _ | UB _ | Diverge => False
+  end.
+Proof. exact so_history_steps_R. Qed.
+Theorem C03_ctor_sinc_out_steps_R : forall ratio maxrel env ilen inbr chunk nch s,
+  (1 <= chunk)%Z -> (0 <= nch)%Z -> (8 <= ilen)%Z -> (ilen mod 2 = 0)%Z -> nbr_ok (se_type env) inbr ->
+  @sinc_out_new CR SR ratio maxrel env ilen inbr chunk nch = inr (RSincOut env s) ->
+  exists blen, so_wfe env blen s /\ ratio = uratio s /\ uL s = ilen.
+Proof. exact so_ctor_wfe_R. Qed.
 
 (** The three synchronous (FFT) resamplers.  [unit_fn] is the spectral core (forward FFT, filter, inverse FFT) as an
     oracle; what is assumed of it is its length contract (part of the invariant).  FftFixedInOut: any arithmetic (its
@@ -264,3 +294,6 @@ Print Assumptions C03_ctor_fft_out_R.
 Print Assumptions C03_ctor_fft_inout.
 Print Assumptions C03_fast_in_steps_safe_R.
 Print Assumptions C03_sinc_in_steps_safe_R.
+Print Assumptions C03_fast_out_steps_safe_R.
+Print Assumptions C03_sinc_out_steps_safe_R.
+Print Assumptions C03_ctor_sinc_out_steps_R.
